@@ -139,6 +139,47 @@ theorem svcStep_clean (cfg : Cfg) (f : Faults) (s : St) (id : Id) (hok : f.svc i
   · rename_i d t lo he
     exact ⟨fun e h => (by rw [he] at h; cases h; exact ⟨rfl, rfl⟩), rfl, hn⟩
 
+theorem syncCheck_clean (cfg : Cfg) (f : Faults) (s : St) (k : Id) (d : ChkDef) (tok : String) (loc : Bool)
+    (hok : f.chk k = .ok) (he : s.l.chks.get? k = some (.ent d tok loc false false))
+    (g : GInv T Rs Rc Ps Pc s.l s.c) (hn : NodeOk cfg s) :
+    Done ((syncCheck cfg f k d s).l.chks.get? k) ∧ (syncCheck cfg f k d s).ok = s.ok ∧ NodeOk cfg (syncCheck cfg f k d s) := by
+  unfold syncCheck
+  rw [hok]
+  obtain ⟨c', hc'⟩ := register_succeeds s.c
+    { nodeVal := cfg.nodeVal, skipNode := s.l.nodeInSync, svc := checkSvc s.l d.sid, chks := [(k, d)] }
+    (by intro p hp
+        simp only [List.mem_singleton] at hp; subst hp
+        simp only
+        by_cases hs : d.sid = ""
+        · exact Or.inl hs
+        · right; left
+          have := g.lwf k d (by simp [liveChk, he, Ent.live?]) hs
+          unfold liveSvc at this
+          unfold checkSvc
+          cases hsv : s.l.svcs.get? d.sid with
+          | none => rw [hsv] at this; simp at this
+          | some e =>
+            rw [hsv] at this
+            cases e with
+            | ghost b => simp [Ent.live?] at this
+            | ent sd t lo b del =>
+              cases del with
+              | true => simp [Ent.live?] at this
+              | false => exact ⟨sd, rfl⟩)
+  simp only
+  rw [hc']
+  refine ⟨?_, rfl, rfl, ?_⟩
+  · intro e h
+    simp only at h
+    unfold markChk at h
+    rw [markChks_chks, if_pos (by simp), he] at h
+    simp only [Option.map_some, Option.some.injEq] at h
+    subst h; exact ⟨rfl, rfl⟩
+  · obtain ⟨_, _, _, s4⟩ := register_spec hc'
+    rcases s4 with h | ⟨h, _, _⟩
+    · exact h
+    · rw [h]; exact hn.2
+
 theorem chkStep_clean (cfg : Cfg) (f : Faults) (s : St) (k : Id) (hok : f.chk k = .ok)
     (g : GInv T Rs Rc Ps Pc s.l s.c) (hn : NodeOk cfg s) :
     Done ((chkStep cfg f s k).l.chks.get? k) ∧ (chkStep cfg f s k).ok = s.ok ∧ NodeOk cfg (chkStep cfg f s k) := by
@@ -157,42 +198,8 @@ theorem chkStep_clean (cfg : Cfg) (f : Faults) (s : St) (k : Id) (hok : f.chk k 
   · rename_i b he; exact hdel (by rw [he]; simp)
   · rename_i d t lo b he; exact hdel (by rw [he]; simp)
   · rename_i d tok loc he
-    unfold syncCheck
-    rw [hok]
-    obtain ⟨c', hc'⟩ := register_succeeds s.c
-      { nodeVal := cfg.nodeVal, skipNode := s.l.nodeInSync, svc := checkSvc s.l d.sid, chks := [(k, d)] }
-      (by intro p hp
-          simp only [List.mem_singleton] at hp; subst hp
-          simp only
-          by_cases hs : d.sid = ""
-          · exact Or.inl hs
-          · right; left
-            have := g.lwf k d (by simp [liveChk, he, Ent.live?]) hs
-            unfold liveSvc at this
-            unfold checkSvc
-            cases hsv : s.l.svcs.get? d.sid with
-            | none => rw [hsv] at this; simp at this
-            | some e =>
-              rw [hsv] at this
-              cases e with
-              | ghost b => simp [Ent.live?] at this
-              | ent sd t lo b del =>
-                cases del with
-                | true => simp [Ent.live?] at this
-                | false => exact ⟨sd, rfl⟩)
-    simp only
-    rw [hc']
-    refine ⟨?_, rfl, rfl, ?_⟩
-    · intro e h
-      simp only at h
-      unfold markChk at h
-      rw [markChks_chks, if_pos (by simp), he] at h
-      simp only [Option.map_some, Option.some.injEq] at h
-      subst h; exact ⟨rfl, rfl⟩
-    · obtain ⟨_, _, _, s4⟩ := register_spec hc'
-      rcases s4 with h | ⟨h, _, _⟩
-      · exact h
-      · rw [h]; exact hn.2
+    exact syncCheck_clean cfg f { s with l := s.l.disarm k } k d tok loc hok he
+      (GInv_congr (l := s.l) (c := s.c) rfl rfl rfl rfl g) hn
   · rename_i d t lo he
     exact ⟨fun e h => (by rw [he] at h; cases h; exact ⟨rfl, rfl⟩), rfl, hn⟩
 
